@@ -153,6 +153,11 @@ def _cache_entry_origin(prog, mod, key):
     return cache_entry_stores(prog, key, lambda m: m is mod)
 
 
+def dominating_guards_of(n):
+    from ..astutil import dominating_guards as _dg
+    return [g for g in _dg(n)]
+
+
 def _wiring(prog, rep, fi, call):
     assigns = local_assignments(fi.node)
     kw = {k.arg: k.value for k in call.keywords if k.arg}
@@ -163,6 +168,24 @@ def _wiring(prog, rep, fi, call):
             d_ = k.value
             if isinstance(d_, ast.Name) and a_.kwarg is not None and d_.id == a_.kwarg.arg:
                 continue                       # the caller's own **kwargs: extra user options
+            filled_later = False
+            if isinstance(d_, ast.Name):
+                # `call = {..}` followed by `call["k"] = v` stores: those are keywords too; anything else that edits the
+                # mapping (update, setdefault, computed keys, deletion) makes it unreadable
+                nm_ = d_.id
+                for n_ in walk_local(fi.node, include_self=False):
+                    if isinstance(n_, ast.Assign) and len(n_.targets) == 1 and isinstance(n_.targets[0], ast.Subscript) and isinstance(n_.targets[0].value, ast.Name) and n_.targets[0].value.id == nm_:
+                        if isinstance(n_.targets[0].slice, ast.Constant) and isinstance(n_.targets[0].slice.value, str) and not dominating_guards_of(n_):
+                            kw.setdefault(n_.targets[0].slice.value, n_.value)
+                        else:
+                            filled_later = True
+                    elif isinstance(n_, ast.Call) and isinstance(n_.func, ast.Attribute) and isinstance(n_.func.value, ast.Name) and n_.func.value.id == nm_ and n_.func.attr in ("update", "setdefault", "pop", "clear"):
+                        filled_later = True
+                    elif isinstance(n_, (ast.AugAssign, ast.Delete)) and nm_ in src(n_):
+                        filled_later = True
+            if filled_later:
+                opaque_kw = True
+                continue
             if isinstance(d_, ast.Name) and len([x for x in assigns.get(d_.id, []) if isinstance(x, ast.AST)]) == 1:
                 d_ = assigns[d_.id][0]
             if isinstance(d_, ast.Dict) and all(isinstance(kk, ast.Constant) for kk in d_.keys):
